@@ -43,11 +43,13 @@ pub fn run_child(args: &[String]) -> i32 {
     let rt = crate::eng::rt();
     let path = args[0].clone();
     let lines = dec_rules(&args[1]);
-    let limit: u64 = args[2].parse().unwrap();
-    unsafe {
-        libc::signal(libc::SIGXFSZ, libc::SIG_IGN);
-        let lim = libc::rlimit { rlim_cur: limit, rlim_max: limit };
-        libc::setrlimit(libc::RLIMIT_FSIZE, &lim);
+    if args[2] != "unlimited" {
+        let limit: u64 = args[2].parse().unwrap();
+        unsafe {
+            libc::signal(libc::SIGXFSZ, libc::SIG_IGN);
+            let lim = libc::rlimit { rlim_cur: limit, rlim_max: limit };
+            libc::setrlimit(libc::RLIMIT_FSIZE, &lim);
+        }
     }
     let mut m = model_with(&rt, &lines);
     let mut a = casbin::FileAdapter::new(path);
@@ -55,6 +57,49 @@ pub fn run_child(args: &[String]) -> i32 {
         Ok(()) => 0,
         Err(_) => 3,
     }
+}
+
+// savesys <old lines> <new lines> <syscall> <when> <err|kill>
+// FileAdapter::save_policy in a child process run under `strace`, which makes the <when>-th call of <syscall> fail with
+// EIO (err) or kills the process when it enters that call (kill): a fault / crash at a system-call boundary. Afterwards
+// the file is read back through a fresh FileAdapter.
+pub fn run_savesys(toks: &[&str]) -> String {
+    let rt = crate::eng::rt();
+    let dir = std::env::var("CVH_TMP").unwrap_or_else(|_| "/verif/.build/tmp".to_string());
+    let _ = std::fs::create_dir_all(&dir);
+    let path = format!("{}/sys{}_{}_{}_{}.csv", dir, std::process::id(), toks[3], toks[4], toks[5]);
+    {
+        let mut m = model_with(&rt, &dec_rules(toks[1]));
+        let mut a = casbin::FileAdapter::new(path.clone());
+        rt.block_on(a.save_policy(&mut m)).unwrap();
+    }
+    let exe = std::env::current_exe().unwrap();
+    let inject = if toks[5] == "kill" {
+        format!("inject={}:signal=SIGKILL:when={}", toks[3], toks[4])
+    } else {
+        format!("inject={}:error=EIO:when={}", toks[3], toks[4])
+    };
+    // only calls that name the policy file or its temporary sibling count (-P), so the occurrence
+    // numbers do not depend on what the runtime does at start-up
+    let st = std::process::Command::new("strace")
+        .args(["-f", "-qq", "-o", "/dev/null", "-P", &path, "-P", &format!("{}.tmp", path), "-e", &format!("trace={}", toks[3]), "-e", &inject])
+        .arg(exe)
+        .args(["savechild", &path, toks[2], "unlimited"])
+        .status();
+    let res = match st {
+        Ok(s) => match s.code() {
+            Some(0) => "ok".to_string(),
+            Some(3) => "err".to_string(),
+            Some(c) => format!("exit{}", c),
+            None => "signal".to_string(),
+        },
+        Err(_) => "nostrace".to_string(),
+    };
+    let back = read_back(&rt, &path);
+    let leftover = std::path::Path::new(&format!("{}.tmp", path)).exists();
+    let _ = std::fs::remove_file(&path);
+    let _ = std::fs::remove_file(format!("{}.tmp", path));
+    format!("res={} file={} tmp={}", res, back, b01(leftover))
 }
 
 // savecrash <old lines> <new lines> <limit>
